@@ -8,7 +8,7 @@ from .common import TOL
 
 PROPERTY = "C09"
 LEVEL = "exploration"
-RUNS = {"quick": 800, "thorough": 40000}
+RUNS = {"quick": 2500, "thorough": 40000}
 RULE = ("seeded scenarios: 1-2 scripted clients send 2-12 requests (7 methods x CON/NON, partly concurrent) to a real "
         "server hosting a zoo of handlers generated per run: return with / without code, raise every "
         "ConstructionRenderableError subclass with and without custom text, raise arbitrary exceptions carrying a secret "
